@@ -344,6 +344,10 @@ def run(ctx):
     b_prefix = {v for vs, _, _ in match_arms(m_prefix) for v in vs}
     # when the registration code was not read (restructured builder), "not registered" is not known: undecided
     regs_read = bool(ok) or bool(reg_prefix or reg_postfix)
+    # a registration whose operand is not a literal `Op::x(Rule::r) | ..` chain (a fold over an array of rules, a variable) was not read:
+    # "not registered" is then not known
+    if any(k_ == "?" for ch_ in tail for k_, _r in ch_):
+        regs_read = False
     for r in sorted(g_prefix | reg_prefix | b_prefix):
         ctx.inst("C10.R2", "prefix=%s" % r, (r in g_prefix and r in reg_prefix and r in b_prefix) if (regs_read or r not in g_prefix or r not in b_prefix) else None,
                  "grammar:%s pratt:%s builder:%s" % (r in g_prefix, r in reg_prefix, r in b_prefix), "blots-core/src/precedence.rs")
